@@ -128,9 +128,14 @@ impl Forest {
         let mut program_lines = vec![];
         // Pass 1: compute string data for every node
         for root in self.roots.values() {
+            // Names under which the nodes yielded so far were printed. Equal expressions are
+            // yielded (and defined) only once, so children must be referred to by the name
+            // of the yielded node rather than by their own name.
+            let mut printed_names: Vec<&Arc<str>> = vec![];
             for data in root.as_ref().post_order_iter::<MaxSharing<_>>() {
                 let node = data.node;
                 let name = node.name();
+                printed_names.push(name);
                 let mut expr_str = match node.inner() {
                     node::Inner::AssertR(cmr, _) => format!("{} := assertr #{}", name, cmr),
                     node::Inner::Fail(entropy) => format!("{} := fail 0x{}", name, entropy),
@@ -140,13 +145,13 @@ impl Forest {
                     }
                     inner => format!("{} := {}", name, inner),
                 };
-                if let Some(child) = node.left_child() {
+                if let Some(idx) = data.left_index {
                     expr_str.push(' ');
-                    expr_str.push_str(child.name());
+                    expr_str.push_str(printed_names[idx]);
                 }
-                if let Some(child) = node.right_child() {
+                if let Some(idx) = data.right_index {
                     expr_str.push(' ');
-                    expr_str.push_str(child.name());
+                    expr_str.push_str(printed_names[idx]);
                 } else if let node::Inner::AssertL(_, cmr) = node.inner() {
                     expr_str.push_str(" #");
                     expr_str.push_str(&cmr.to_string());
